@@ -14,6 +14,7 @@ callback exactly once — C10), `serverProcess.result()` after `abort()` and the
 (both end when the process ends; process.go bounds that by its grace timers).
 -/
 import ConfModel.Lemmas.ServerRunner
+import ConfModel.Lemmas.ServerWire
 import ConfModel.Props.C10
 namespace ConfModel.Props.C11
 open ConfModel.ServerRunner ConfModel.ServerRunner.Spec
@@ -210,6 +211,106 @@ theorem stderr_processed (s : Script) (hs : s.startErr = false) :
   cases s.isRef <;> simp only [Bool.false_eq_true, if_false, if_true] <;>
     (split <;> (try split) <;> (try split) <;> (try split) <;> (try split) <;> rfl)
 
+/-! ### the peers' stdout as bytes: "answers with garbage", for every garbage
+
+`Resp.stream d body` gives the server's stdout as the byte string `d`; what the runner makes of it
+is decided by the model of the length-prefixed reader at that call site
+(`Delimited.readAt .server`: 32-bit prefix arithmetic, limit 1 MB).  The statements below are for
+every byte string of the given shape; together with `one_outcome_each` / `outcomes_as_demanded`
+(which hold for every script, hence for every `stream`) they say that no byte string on a peer's
+stdout can leave a case without its outcome. -/
+
+/-- **stream_response_decided.**  Whatever bytes the server writes, the reader either frames the
+first message (and decoding decides) or it does not and the batch is a set-up fault: there is no
+third way out (in particular none that ends the runner). -/
+theorem stream_response_decided (d : List UInt8) (body : Option Bool) :
+    respCert (.stream d body) = body ∨ respCert (.stream d body) = none := by
+  simp only [respCert]
+  split
+  · exact Or.inl rfl
+  · exact Or.inr rfl
+
+/-- **oversize_response_all_setup_errors** — for each of the 2^32 prefixes above the limit: a
+server whose first four stdout bytes announce more than 1 MB makes every case of the batch a set-up
+error, whatever follows the four bytes, whatever the client would have done. -/
+theorem oversize_response_all_setup_errors (s : Script) (b0 b1 b2 b3 : UInt8) (rest : List UInt8)
+    (body : Option Bool) (hr : s.resp = .stream (b0 :: b1 :: b2 :: b3 :: rest) body)
+    (hb : Delimited.Site.limit .server < Delimited.be32 [b0, b1, b2, b3])
+    (i : Nat) (hi : i < s.cases.length) :
+    (i, Class.setup) ∈ (runBatch s).log ∧ ∀ c, (i, c) ∈ (runBatch s).log → c = .setup := by
+  have hn : respCert s.resp = none := by
+    rw [hr]
+    apply respCert_stream_none
+    rw [readAt_oversize .server b0 b1 b2 b3 rest hb]; rfl
+  exact faults_are_setup_errors s (setupFault_of_respCert_none s hn) i hi
+
+/-- **highbit_response_all_setup_errors.**  In particular when the first byte is ≥ 0x80 (a UTF-8
+byte-order mark or other non-ASCII text, UTF-16, binary on the server's stdout): the prefix is a
+size of at least 2^31, not a negative one. -/
+theorem highbit_response_all_setup_errors (s : Script) (b0 b1 b2 b3 : UInt8) (rest : List UInt8)
+    (body : Option Bool) (hr : s.resp = .stream (b0 :: b1 :: b2 :: b3 :: rest) body)
+    (hb : 128 ≤ b0.toNat) (i : Nat) (hi : i < s.cases.length) :
+    (i, Class.setup) ∈ (runBatch s).log ∧ ∀ c, (i, c) ∈ (runBatch s).log → c = .setup := by
+  apply oversize_response_all_setup_errors s b0 b1 b2 b3 rest body hr _ i hi
+  simp only [Delimited.Site.limit, Delimited.be32, List.foldl_cons, List.foldl_nil]
+  omega
+
+/-- **short_response_all_setup_errors.**  A server whose stdout ends before a whole frame has
+come — nothing at all, one to three bytes, or fewer bytes than the prefix announces — makes
+every case a set-up error. -/
+theorem short_response_all_setup_errors (s : Script) (d : List UInt8) (body : Option Bool)
+    (hr : s.resp = .stream d body)
+    (hd : d.length < 4 ∨ ∃ b0 b1 b2 b3 rest, d = b0 :: b1 :: b2 :: b3 :: rest ∧
+      rest.length < Delimited.be32 [b0, b1, b2, b3])
+    (i : Nat) (hi : i < s.cases.length) :
+    (i, Class.setup) ∈ (runBatch s).log ∧ ∀ c, (i, c) ∈ (runBatch s).log → c = .setup := by
+  have hn : respCert s.resp = none := by
+    rw [hr]
+    apply respCert_stream_none
+    rcases hd with hd | ⟨b0, b1, b2, b3, rest, hd, hl⟩
+    · exact readAt_short .server d hd
+    · rw [hd]; exact readAt_truncated .server b0 b1 b2 b3 rest hl
+  exact faults_are_setup_errors s (setupFault_of_respCert_none s hn) i hi
+
+/-- **client_stream_cases.**  The real client runner behind the send loop, its client having
+written `msgs` (well-formed responses for the first cases as far as `valid` says) and then a prefix
+`p` above the 16 MB limit of that call site — any of the 2^32 prefixes above it, e.g. every one with
+the top bit set — followed by anything: the cases answered before keep their answer, every other
+case gets its callback with "no result" (a set-up error by `outcomes_as_demanded`). -/
+theorem client_stream_cases (n valid : Nat) (msgs : List (List UInt8)) (p : Nat) (rest : List UInt8)
+    (hf : Framing.Fits (Delimited.Site.limit .client) msgs) (hp : Delimited.Site.limit .client < p)
+    (h32 : p < 4294967296) (hn : msgs.length ≤ n) :
+    casesOfClientStream n valid (msgs.flatMap Delimited.encode ++ (Delimited.putBe32 p ++ rest)) =
+      (List.range n).map fun i =>
+        if i < min valid msgs.length then Case.answer .pass true else Case.answer .noresult true := by
+  unfold casesOfClientStream
+  have hk : n + 1 = msgs.length + ((n - msgs.length) + 1) := by omega
+  rw [hk, results_msgs_then_oversize .client msgs (n - msgs.length) p rest [] .eofSeparate hf hp h32]
+  simp only [leadingMsgs_append msgs (Delimited.Res.tooLarge p) rfl]
+
+/-- with such a client every case still has exactly one outcome, and the cases after the garbage
+are set-up errors (instance of `one_outcome_each` / `after_fault_setup_errors`, spelled out) -/
+theorem client_garbage_setup_errors (s : Script) (n valid : Nat) (msgs : List (List UInt8)) (p : Nat)
+    (rest : List UInt8) (hf : Framing.Fits (Delimited.Site.limit .client) msgs)
+    (hp : Delimited.Site.limit .client < p) (h32 : p < 4294967296) (hn : msgs.length ≤ n)
+    (hc : s.cases = casesOfClientStream n valid (msgs.flatMap Delimited.encode ++ (Delimited.putBe32 p ++ rest)))
+    (i : Nat) (hi : i < n) (hge : min valid msgs.length ≤ i) (c : Class) (hm : (i, c) ∈ (runBatch s).log) :
+    isSetupErr c = true := by
+  rw [client_stream_cases n valid msgs p rest hf hp h32 hn] at hc
+  have hlen : s.cases.length = n := by rw [hc]; simp
+  have hcase : s.cases[i]? = some (.answer .noresult true) := by
+    rw [hc]
+    simp [hi, Nat.not_lt.mpr hge]
+  have := outcomes_as_demanded s i c hm
+  unfold expectedOK at this
+  split at this
+  · simp at this; subst this; rfl
+  · split at this
+    · rw [hcase] at this
+      simp [verdict] at this
+      subst this; rfl
+    · exact this
+
 /-! ### in-process servers (`runInProcess` / `localProcess`) and the real client runner -/
 
 /-- **healthy_server_never_dead.**  A server run in-process that does not end by itself is never
@@ -342,6 +443,27 @@ example : (runBatch (demo [.answer .pass false, .answer .pass false, .answer .pa
       = ["noise\n".toList, "c:no\n".toList] ∧
     (runBatch (demo [.answer .pass false, .answer .pass false, .answer .pass false] none .ok false)).sideband
       = [("a".toList, "bad header".toList), ("b".toList, "x: y".toList)] := by decide
+
+/-- hypotheses of `oversize_response_all_setup_errors` / `highbit_response_all_setup_errors`: a
+server that prints a UTF-8 byte-order mark and text on its stdout -/
+example : Delimited.Site.limit .server < Delimited.be32 [0xef, 0xbb, 0xbf, 0x4c] ∧ 128 ≤ (0xef : UInt8).toNat ∧
+    (runBatch (demo [.answer .pass false, .answer .pass true] none
+      (.stream [0xef, 0xbb, 0xbf, 0x4c, 0x69, 0x73] (some false)) false)).log = [(0, .setup), (1, .setup)] := by decide
+
+/-- hypotheses of `short_response_all_setup_errors`: two bytes; a prefix announcing 5 bytes followed by 2 -/
+example : ([0, 0] : List UInt8).length < 4 ∧ ([1, 2] : List UInt8).length < Delimited.be32 [0, 0, 0, 5] ∧
+    setupFault (demo [.answer .pass false] none (.stream [0, 0] (some false)) false) = true ∧
+    setupFault (demo [.answer .pass false] none (.stream [0, 0, 0, 5, 1, 2] (some false)) false) = true := by decide
+
+/-- a well-formed frame is decided by decoding (`stream_response_decided`, first alternative) -/
+example : respCert (.stream [0, 0, 0, 2, 9, 9, 7] (some true)) = some true := by decide
+
+/-- hypotheses of `client_stream_cases` / `client_garbage_setup_errors`: one answer, then a prefix
+with the top bit set: case 0 keeps its answer, cases 1 and 2 get "no result" -/
+example : Framing.Fits (Delimited.Site.limit .client) [[1, 2]] ∧ Delimited.Site.limit .client < 2147483648 ∧
+    casesOfClientStream 3 1 ([[1, 2]].flatMap Delimited.encode ++ (Delimited.putBe32 2147483648 ++ [7])) =
+      [.answer .pass true, .answer .noresult true, .answer .noresult true] :=
+  ⟨by intro m hm; simp at hm; subst hm; decide, by decide, by decide⟩
 
 example : ∀ nm ∈ ["a".toList, "b".toList, "c".toList], noSep nm = true := by decide
 
